@@ -3,6 +3,7 @@ import Driver.EncOps
 import Driver.SStrOps
 import Driver.ModOps
 import Driver.RuleOps
+import Driver.CollOps
 open Lean Driver
 
 def dispatch (op : String) (j : Json) : Except String Json :=
@@ -19,6 +20,8 @@ def dispatch (op : String) (j : Json) : Except String Json :=
   | "mod.apply" => modApply j
   | "rule.sem" => ruleSem j
   | "rule.batch" => ruleBatch j
+  | "coll.check" => collCheck j
+  | "coll.convert" => collConvert j
   | "ping" => pure (Json.mkObj [("pong", true)])
   | _ => throw s!"unknown op {op}"
 
